@@ -5,6 +5,7 @@
 -/
 import SLV.Oracle.Basic
 import SLV.Oracle.Fuse
+import SLV.Oracle.Spec
 namespace SLV.Oracle
 
 structure Case where
@@ -553,11 +554,11 @@ def oracleC04 (c : Case) : Option (List String) :=
   let cs := condAt xs (2 * n + 1) n m
   let fb := slice xs (2 * n + 1 + n * (m + 1)) m
   if !(wfOpinion (4 * c.eps) bx ux ax && condWf (4 * c.eps) cs) then none else
-  let raw := (List.range m).map fun y => sumQ (List.zipWith (fun a cc => a * cc.1.getD y 0) ax cs)
-  let t := sumQ raw
   let allVac := cs.all fun cc => decide (1 - 2 * c.eps ≤ cc.2)
   let ayOpt : Option (List Rat) :=
-    if allVac || t = 0 then (if c.op == "deduce" then none else some fb) else some (raw.map (· / t))
+    match (if allVac then none else mbrSpec ax cs m) with
+    | some ay => some ay
+    | none => if c.op == "deduce" then none else some fb
   match ayOpt with
   | none => none
   | some ay =>
@@ -565,9 +566,7 @@ def oracleC04 (c : Case) : Option (List String) :=
   let τ := tauSpec c.fmt * 16
   withValue c "C04" fun out =>
     let (b, u, a) := opinionAt out 0 m
-    let px := projQ bx ux ax
-    let want := (List.range m).map fun y =>
-      sumQ (List.zipWith (fun p cc => p * (cc.1.getD y 0 + ay.getD y 0 * cc.2)) px cs)
+    let want := totalProbSpec bx ux ax cs ay m
     let absolute : List String :=
       match (List.range n).find? (fun x => decide (bx.getD x 0 = 1)) with
       | some x0 =>
@@ -576,22 +575,9 @@ def oracleC04 (c : Case) : Option (List String) :=
       | none => []
     -- the defining form: belief-weighted mixture of the conditionals plus u_X times the most uncertain apex
     -- opinion with projection Σ_x a(x)P(y|x) whose masses are at least min_x b(y|x)
-    let pyhx := (List.range m).map fun y =>
-      sumQ (List.zipWith (fun ax' cc => ax' * (cc.1.getD y 0 + ay.getD y 0 * cc.2)) ax cs)
-    let bmin := (List.range m).map fun y =>
-      (cs.map fun cc => cc.1.getD y 0).foldl minQ ((cs.headD ([], 0)).1.getD y 0)
-    let uhat : Option Rat := (List.range m).foldl (fun (acc : Option Rat) y =>
-      if ay.getD y 0 > 0 then
-        let v := (pyhx.getD y 0 - bmin.getD y 0) / ay.getD y 0
-        match acc with | none => some v | some mm => some (minQ mm v)
-      else acc) none
-    let apex : List String := match uhat with
+    let apex : List String := match deduceSpec bx ux ax cs ay m with
       | none => []
-      | some uh =>
-        let uWant := uh * ux + sumQ (List.zipWith (fun bb cc => bb * cc.2) bx cs)
-        let bWant := (List.range m).map fun y =>
-          sumQ (List.zipWith (fun bb cc => bb * cc.1.getD y 0) bx cs) + ux * (pyhx.getD y 0 - ay.getD y 0 * uh)
-        check "C04.mixture_plus_apex" (closeQ τ u uWant && closeList τ b bWant)
+      | some (bWant, uWant) => check "C04.mixture_plus_apex" (closeQ τ u uWant && closeList τ b bWant)
     check "C04.wf" (wfSimplex (τ * (m + 1)) b u)
       ++ check "C04.base_rate" (closeList τ a ay)
       ++ check "C04.total_probability" (closeList τ (projQ b u ay) want)
@@ -612,11 +598,10 @@ def oracleC06 (c : Case) : Option (List String) :=
   -- a rejection by rounding residue is C19's business, not C06's
   if c.cls == "panic" && isResidue c then none else
   let τ := tauSpec c.fmt * 16
-  let outer (vs : List (List Rat)) : List Rat :=
-    vs.foldl (fun acc v => acc.flatMap fun x => v.map fun y => x * y) [1]
-  let P := outer (ops.map fun w => projQ w.1 w.2.1 w.2.2)
-  let A := outer (ops.map fun w => w.2.2)
-  let B := outer (ops.map fun w => w.1)
+  let sp := productSpec ops
+  let P := sp.1
+  let A := sp.2.1
+  let B := sp.2.2.1
   let N := P.length
   withValue c "C06" fun out =>
     let (b, u, a) := opinionAt out 0 N
@@ -626,11 +611,7 @@ def oracleC06 (c : Case) : Option (List String) :=
       check "C06.wf" (wfOpinion (τ * (N + 1)) b u a) ++ check "C06.outer_base_rate" (closeList τ a A) else
     if A.any (fun v => decide (0 < v) && decide (v ≤ c.eps)) then
       check "C06.wf" (wfOpinion (τ * (N + 1)) b u a) ++ check "C06.outer_base_rate" (closeList τ a A) else
-    let uhat := (List.zip (List.zip P B) A).foldl
-      (fun (acc : Option Rat) (t : (Rat × Rat) × Rat) => if t.2 > 0 then
-          let v := (t.1.1 - t.1.2) / t.2
-          match acc with | none => some v | some m => some (minQ m v)
-        else acc) none
+    let uhat := sp.2.2.2
     check "C06.wf" (wfOpinion (τ * (N + 1)) b u a)
       ++ check "C06.outer_base_rate" (closeList τ a A)
       ++ check "C06.outer_projection" (closeList τ (projQ b u a) P)
